@@ -10,6 +10,8 @@ const VARIANTS = {
     ok1: 'import { A } from "./a";\nexport const Parsers = parse.buildParsers<{ A: A }>();',
     ok2: 'import { A } from "./a";\nexport type L = A[];\nexport const Parsers = parse.buildParsers<{ A: A, L: L, S: string }>();',
     unres: 'import { Nope } from "./a";\nexport const Parsers = parse.buildParsers<{ A: Nope }>();',
+    // a value of b.ts through the export-star barrel bar.ts (lazily loaded modules: the first build must not differ from the next)
+    viabarrel: 'import { A } from "./a";\nimport { val } from "./bar";\nexport const Parsers = parse.buildParsers<{ A: A, V: typeof val }>();',
     broken: 'import { A } from "./a";\nexport const Parsers = parse.buildParsers<{ A: A }>(;',
     empty: "// nothing here\n",
   },
@@ -22,8 +24,8 @@ const VARIANTS = {
     empty: "/* commented out: export type A = {} */\n",
   },
   "b.ts": {
-    ok1: "export type B = { y: number };",
-    ok2: "export type B = string[];\nexport type Missing = 1;",
+    ok1: "export type B = { y: number };\nexport const val = 1 as const;",
+    ok2: "export type B = string[];\nexport type Missing = 1;\nexport const val = 2 as const;",
     broken: "export type B = {{",
     empty: "",
   },
@@ -58,7 +60,8 @@ export async function run() {
     for (const f of FILES) for (const v of Object.keys(VARIANTS[f])) if (VARIANTS[f][v] !== null) actions.push({ kind: "update", f, v });
     actions.push({ kind: "rebuild" });
     const initialFs = () => Object.fromEntries(FILES.map((f) => [f, f === "zzz.ts" ? "absent" : "ok1"]));
-    const fsText = (fsv) => Object.fromEntries(FILES.filter((f) => VARIANTS[f][fsv[f]] !== null).map((f) => [f, VARIANTS[f][fsv[f]]]));
+    const STATIC = { "bar.ts": 'export * from "./b";' }; // never edited
+    const fsText = (fsv) => ({ ...STATIC, ...Object.fromEntries(FILES.filter((f) => VARIANTS[f][fsv[f]] !== null).map((f) => [f, VARIANTS[f][fsv[f]]])) });
     const actText = (a) => (a.kind === "rebuild" ? "rebuild" : `update(${a.f}, ${a.v})`);
     const freshCache = new Map();
     const fresh = async (fsv) => {
@@ -159,7 +162,7 @@ export async function run() {
       traces_validated_against_impl: stats.replays,
       samples,
       exhaustive: !!stats.closed,
-      explanation: "project entry.ts -> a.ts (named import) -> b.ts (namespace import), plus zzz.ts which does not exist at first and is imported only by one variant of a.ts (creating it is an update from nothing); contents per file: two valid variants, unresolvable reference, import of the not-yet-existing file, syntactically broken, empty/comment-only (5+6+4+2 update actions + rebuild); BFS over histories, canonical state = (content-variant vector, cache fingerprint = per cached file a hash of the cached module's source text, read through the hook), every state reached by replaying its shortest history in a fresh session; invariant at every rebuild transition: (code | diagnostics, both entry points) equal those of a fresh session serving the current contents. " + (stats.closed ? "closure reached" : `depth bound ${stats.depth} completed (state cap ${STATECAP})`),
+      explanation: "project entry.ts -> a.ts (named import) -> b.ts (namespace import), plus zzz.ts which does not exist at first and is imported only by one variant of a.ts (creating it is an update from nothing); a static barrel bar.ts (export * from b.ts) through which one entry variant takes a value; contents per file: two valid variants, a value through the barrel, unresolvable reference, import of the not-yet-existing file, syntactically broken, empty/comment-only (6+6+4+2 update actions + rebuild); BFS over histories, canonical state = (content-variant vector, cache fingerprint = per cached file a hash of the cached module's source text, read through the hook), every state reached by replaying its shortest history in a fresh session; invariant at every rebuild transition: (code | diagnostics, both entry points) equal those of a fresh session serving the current contents. " + (stats.closed ? "closure reached" : `depth bound ${stats.depth} completed (state cap ${STATECAP})`),
       depth_completed: stats.depth,
       depth_max_history: stats.maxDepth,
       rebuild_transitions_checked: stats.rebuilds,
